@@ -154,6 +154,13 @@ func c07Scenario(env string, cnt int, srt, ci bool, run string, tests []shape2, 
 		sc.Files = append(sc.Files, vfNamedFile{Name: fn, Entries: es})
 	}
 	sc.Files = append(sc.Files, vfNamedFile{Name: "unused.snap", Entries: []vfEntry{{ID: "TestU - 1", Body: "u"}}})
+	if !staleFirst {
+		// an addressed file that is examined before the others and whose last entry lost its terminator (truncated file):
+		// nothing of it may end up in what the other files' matched entries replay as
+		sc.Files = append(sc.Files, vfNamedFile{Name: "0.snap", Entries: []vfEntry{{ID: "TestKeep0 - 1", Body: "k0"}}})
+		sc.Append = map[string]string{"0.snap": "\n[TestTrunc - 1]\nleftover line 1\nleftover line 2\n"}
+		sc.Tests = append(sc.Tests, vfTestExec{Name: "TestKeep0", Calls: []vfCall{{API: "snap", Val: "k0", File: "0"}}})
+	}
 	sc.SFiles["TestGone_1.snap"] = "gone"
 	return sc
 }
@@ -244,6 +251,9 @@ func c07Run(c *vfCtx, cs c07Case) {
 	for f, ids := range addrE {
 		pre, _ := vfParse(o.before[f].Data)
 		post, err := vfParse(o.after[f].Data)
+		if _, truncated := sc.Append[f]; truncated && err != nil {
+			continue // the file was malformed before Clean ran; what Clean makes of it is not judged
+		}
 		if err != nil {
 			c.violation(class, fmt.Sprintf("%s malformed after Clean: %v", f, err), cs)
 			return
